@@ -146,10 +146,12 @@ structure HDiff (K : Type) where
   stdev : K
   extern : String
 
-/-- `export_xml`, HeightDifferences branch: `dist` if `> 0` else `stdev` (`pos` = the test `dist > 0`) -/
-def exportDh (F : NumFmt K) (ext : Bool) (pos : K → Bool) (h : HDiff K) : Elem × Attrs :=
+/-- `export_xml`, HeightDifferences branch: `dist` if `> 0` (`pos` = the test `dist > 0`); `stdev` always
+    (`always`, the tree since 9f04c51) or only in the `else` of that test (before: finding F28) -/
+def exportDh (F : NumFmt K) (ext : Bool) (pos : K → Bool) (always : Bool) (h : HDiff K) : Elem × Attrs :=
   (.dh, [(Attr.from_, h.from_), (Attr.to, h.to), (Attr.val, F.fmt h.val)] ++
-        (if pos h.dist then [(Attr.dist, F.fmt h.dist)] else [(Attr.stdev, F.fmt h.stdev)]) ++
+        (if pos h.dist then [(Attr.dist, F.fmt h.dist)] else []) ++
+        (if always || !pos h.dist then [(Attr.stdev, F.fmt h.stdev)] else []) ++
         (if ext ∧ h.extern ≠ "" then [(Attr.extern, h.extern)] else []))
 
 /-- `process_dh`; `sd d` = `apriori_m_0 * sqrt(d)`, the standard deviation implied by a distance -/
